@@ -341,6 +341,11 @@ def judge(case, impl, asis, spec):
     if asis == "fuel" or spec == "fuel":
         return Verdict(False, None)
     corr = True if asis == "unmodelled" else (ic == asis)
+    if not corr and spec.startswith("unspec:") and ic is not None and (
+            ic == "err" or (ic.startswith("ok:") and ic[3:].startswith(spec[len("unspec:"):]))):
+        # past the point where the run becomes unspecified the as-is model (which mirrors the
+        # scope *structure* of today's code) need not be reproduced by a repaired implementation
+        corr = True
     if ic is None or not (ic.startswith("ok:") or ic == "err"):
         return Verdict(corr, "crash: " + str(impl)[:60])
     fails = None
